@@ -60,7 +60,7 @@ def run(ctx, rep):
                 guard_ok = c[0] == 'binop' and c[1] in ('Ne', 'Eq') and psc.strip(c[2])[0] == 'len' and psc.strip(c[3]) == ('int', 1)
             rep.ob(guard_ok and arg_err and allok and bc, 'R14.2', fn.path, 'arity guard', 'first test is args.len() != 1 -> ArgumentError; %d index sites on args all dominated by it' % len(bc), fn.loc())
         # R14.3 totality per type
-        und = [s for s in sites if s['fn'] == fn.path and c05.discharge(F, s) is None and not any(r[0] == fn.path for r in c05.d3_table(ctx))]
+        und = [s for s in sites if (s['fn'] == fn.path or s['fn'].startswith(fn.path + '::{closure')) and not c05.verdict_for(ctx, s)[0]]
         for ty in types:
             def decide(nm, argv, t, ty=ty):
                 if nm == 'object::Object::tag':
